@@ -91,10 +91,10 @@ def c14a_rules(ctx, tu):
     for fn in tu.find(A["dtor_lifetime_monitor"]):
         back = lib.peer_roles(tu).get("back", NS + "lifetime_monitor::object_monitor")
         uses = cfg.find_events(fn, lambda e: e["e"] in ("assign", "member") and back in erase(str(e)))
-        g = [bid for bid in fn.blocks if cfg.cond_of(fn, bid) is not None and "lifetime_monitor::died" in str(cfg.cond_of(fn, bid))]
+        g = [bid for bid in fn.blocks if cfg.cond_of(fn, bid) is not None and lib.died_field(tu) in erase(str(lib.cond_atom(fn, bid)[0]))]
         ok = len(g) == 1 and bool(uses)
         if ok:
-            t, pol = cond_shape(cfg.cond_of(fn, g[0]))
+            t, pol = lib.cond_atom(fn, g[0])
             alive_edge = 1 if pol else 0     # cond is  !died  -> true edge = alive
             ok = all(cfg.edge_dominates(fn, (g[0], alive_edge), b) for b, _, _ in uses)
         ctx.ob("C14.a", NS + "lifetime_monitor::object_monitor (guarded by died)", ok, pattern=fn.pat, unit=tu.name,
